@@ -761,38 +761,66 @@ func partialVariables(c *core.Child, env *build.Env, m *model.Schema, f *model.F
 		if val == nil {
 			continue
 		}
-		var defs, fields []string
+		var defs []string
 		vars := map[string]interface{}{}
-		for fi, fd := range td.InputFields {
-			fv, has := val[fd.Name]
-			mode := r.Intn(4)
-			if fd.Type.Kind == "nonnull" && (!has || mode == 3) {
-				mode = 0
-			}
-			vn := fmt.Sprintf("x%d", fi)
-			switch {
-			case mode == 3: // variable, not supplied
-				defs = append(defs, fmt.Sprintf("$%s: %s", vn, fd.Type.String()))
-				fields = append(fields, fmt.Sprintf("%s: $%s", fd.Name, vn))
-			case !has:
-				// field not written
-			case mode == 2: // variable, supplied
-				defs = append(defs, fmt.Sprintf("$%s: %s", vn, fd.Type.String()))
-				fields = append(fields, fmt.Sprintf("%s: $%s", fd.Name, vn))
-				vars[vn] = fv
-			default:
-				lit, ok := literalOf(m, fd.Type, fv)
-				if !ok {
+		nvar := 0
+		// render writes the object value val of input type otd as a literal whose
+		// fields are literals, supplied variables or unprovided variables; fields
+		// of input-object type are rendered as nested literals of the same kind
+		var render func(otd *model.TypeDef, val map[string]interface{}, depth int) (string, bool)
+		render = func(otd *model.TypeDef, val map[string]interface{}, depth int) (string, bool) {
+			var fields []string
+			for _, fd := range otd.InputFields {
+				fv, has := val[fd.Name]
+				mode := r.Intn(4)
+				if fd.Type.Kind == "nonnull" && (!has || mode == 3) {
+					mode = 0
+				}
+				vn := fmt.Sprintf("x%d", nvar)
+				ft := fd.Type
+				if ft.Kind == "nonnull" {
+					ft = ft.Of
+				}
+				nested := m.Type(ft.Name)
+				if sub, ok := fv.(map[string]interface{}); ok && has && depth < 3 && ft.Kind == "named" && nested != nil && nested.Kind == model.InputObject && r.Chance(60) {
+					lit, ok := render(nested, sub, depth+1)
+					if !ok {
+						return "", false
+					}
+					fields = append(fields, fmt.Sprintf("%s: %s", fd.Name, lit))
 					continue
 				}
-				fields = append(fields, fmt.Sprintf("%s: %s", fd.Name, nast.PrintValue(lit)))
+				switch {
+				case mode == 3: // variable, not supplied
+					nvar++
+					defs = append(defs, fmt.Sprintf("$%s: %s", vn, fd.Type.String()))
+					fields = append(fields, fmt.Sprintf("%s: $%s", fd.Name, vn))
+				case !has:
+					// field not written
+				case mode == 2: // variable, supplied
+					nvar++
+					defs = append(defs, fmt.Sprintf("$%s: %s", vn, fd.Type.String()))
+					fields = append(fields, fmt.Sprintf("%s: $%s", fd.Name, vn))
+					vars[vn] = fv
+				default:
+					lit, ok := literalOf(m, fd.Type, fv)
+					if !ok {
+						return "", false
+					}
+					fields = append(fields, fmt.Sprintf("%s: %s", fd.Name, nast.PrintValue(lit)))
+				}
 			}
+			return "{" + strings.Join(fields, ", ") + "}", true
+		}
+		objLit, ok := render(td, val, 0)
+		if !ok {
+			continue
 		}
 		head := ""
 		if len(defs) > 0 {
 			head = "query(" + strings.Join(defs, ", ") + ") "
 		}
-		text := fmt.Sprintf("%s{ %s(a: {%s}) }", head, f.Name, strings.Join(fields, ", "))
+		text := fmt.Sprintf("%s{ %s(a: %s) }", head, f.Name, objLit)
 		doc, perr := syntax.Parse([]byte(text))
 		if perr != nil {
 			c.Violation("harness:ref-parse", perr.Msg, text)
